@@ -14,14 +14,14 @@ type RawRec struct {
 
 // RawJWE is a serialized JWE (compact or JSON) at the level an attacker on the wire sees it: base64 strings.
 type RawJWE struct {
-	Compact    bool     `json:"-"`
+	Compact     bool            `json:"-"`
 	Protected   string          `json:"protected,omitempty"`
 	Unprotected json.RawMessage `json:"unprotected,omitempty"`
 	Recipients  []RawRec        `json:"recipients,omitempty"`
-	AAD        string   `json:"aad,omitempty"`
-	IV         string   `json:"iv,omitempty"`
-	Ciphertext string   `json:"ciphertext,omitempty"`
-	Tag        string   `json:"tag,omitempty"`
+	AAD         string          `json:"aad,omitempty"`
+	IV          string          `json:"iv,omitempty"`
+	Ciphertext  string          `json:"ciphertext,omitempty"`
+	Tag         string          `json:"tag,omitempty"`
 }
 
 // ParseRawJWE splits a serialized JWE.
